@@ -216,6 +216,9 @@ func runNumCall(f map[string]interface{}) M {
 		}
 		input = map[string]interface{}{"x": vx, "y": vy}
 		src = "x " + gs(f, "op") + " y"
+		if gs(f, "op") == ".." {
+			src = "$count([x..y])"
+		}
 	case "fmt":
 		st["pic"] = f["pic"]
 		src = "$formatNumber($, " + quoteJ(cpsToString(f["pic"]))
@@ -294,8 +297,14 @@ func runNumCall(f map[string]interface{}) M {
 			out = M{"o": "val", "b": v}
 		case int64:
 			out = M{"o": "val", "x": decOf(float64(v))}
+			if xe := decExactOf(float64(v)); xe != nil && float64(v) == math.Trunc(float64(v)) && math.Abs(float64(v)) < 1<<53 {
+				out["xe"] = xe
+			}
 		case int:
 			out = M{"o": "val", "x": decOf(float64(v))}
+			if xe := decExactOf(float64(v)); xe != nil && math.Abs(float64(v)) < 1<<53 {
+				out["xe"] = xe
+			}
 		default:
 			out = M{"o": "unproj", "gotype": fmt.Sprintf("%T", res)}
 		}
